@@ -205,6 +205,7 @@ func (s *State) Deliver(msg sdk.Msg) (res TxResult) {
 	cctx = cctx.WithEventManager(sdk.NewEventManager())
 	r, err := h(cctx, msg)
 	if err != nil {
+		s.C.obs("tx-rejected", nil, nil)
 		return TxResult{Err: err}
 	}
 	write()
@@ -212,6 +213,7 @@ func (s *State) Deliver(msg sdk.Msg) (res TxResult) {
 	if r != nil {
 		evs = r.Events
 	}
+	s.C.obs("tx", evs, nil)
 	return TxResult{Events: evs}
 }
 
@@ -231,6 +233,9 @@ func (s *State) RunTx(f func(ctx sdk.Context) bool) (events []abci.Event, panicM
 	cctx = cctx.WithEventManager(em)
 	if f(cctx) {
 		write()
+		s.C.obs("runtx", em.ABCIEvents(), nil)
+	} else {
+		s.C.obs("runtx-reverted", nil, nil)
 	}
 	return em.ABCIEvents(), ""
 }
@@ -278,6 +283,7 @@ func (s *State) NextBlock(dt time.Duration, mid func(s *State, r *BlockResult)) 
 	}
 	res.ValUpdates = eb.ValidatorUpdates
 	res.EndEvents = eb.Events
+	s.C.obs("end-block", eb.Events, eb.ValidatorUpdates)
 	if len(eb.ValidatorUpdates) > 0 {
 		ne, err := s.Engine.ApplyUpdates(eb.ValidatorUpdates)
 		if err != nil {
@@ -299,6 +305,7 @@ func (s *State) NextBlock(dt time.Duration, mid func(s *State, r *BlockResult)) 
 	}
 	s.Ctx = WithHeader(s.Ctx, s.C.ChainID, s.Height()+1, s.Time().Add(dt))
 	res.BeginErr, res.BeginEvents = s.begin()
+	s.C.obs("begin-block", res.BeginEvents, nil)
 	return res
 }
 
